@@ -32,6 +32,7 @@ type recogEnv struct {
 	J, K    *types.Named // interfaces: J lacks M, K has M and more
 	E       *types.Named // interface{ I }: methods only through an embedded interface
 	S1      *types.Named // struct{ A int }
+	S3      *types.Named // struct{ A int; _u string; Ünï int }: field names "*" must not skip
 	fset    *token.FileSet
 }
 
@@ -51,6 +52,11 @@ func newRecogEnv() *recogEnv {
 	}, nil)
 	e.S = types.NewNamed(types.NewTypeName(token.NoPos, e.pkg, "S", nil), st, nil)
 	e.S1 = types.NewNamed(types.NewTypeName(token.NoPos, e.pkg, "S1", nil), types.NewStruct([]*types.Var{types.NewField(token.NoPos, e.pkg, "A", types.Typ[types.Int], false)}, nil), nil)
+	e.S3 = types.NewNamed(types.NewTypeName(token.NoPos, e.pkg, "S3", nil), types.NewStruct([]*types.Var{
+		types.NewField(token.NoPos, e.pkg, "A", types.Typ[types.Int], false),
+		types.NewField(token.NoPos, e.pkg, "_u", types.Typ[types.String], false),
+		types.NewField(token.NoPos, e.pkg, "Ünï", types.Typ[types.Bool], false),
+	}, nil), nil)
 	e.G = types.NewNamed(types.NewTypeName(token.NoPos, e.pkg, "G", nil), st, nil)
 	msig := types.NewSignature(nil, nil, nil, false)
 	iface := types.NewInterfaceType([]*types.Func{types.NewFunc(token.NoPos, e.pkg, "M", msig)}, nil)
@@ -120,6 +126,8 @@ func (e *recogEnv) ptrExpr(tag string, what int) (ast.Expr, types.Type) {
 		tyExpr = &ast.StructType{Fields: &ast.FieldList{}}
 	case 10:
 		elem, tyExpr = e.S1, e.typeIdent(e.S1)
+	case 13:
+		elem, tyExpr = e.S3, e.typeIdent(e.S3)
 	case 11:
 		elem, tyExpr = types.NewPointer(e.N), &ast.StarExpr{X: e.typeIdent(e.N)}
 	case 12:
@@ -142,14 +150,14 @@ func (e *recogEnv) ptrExpr(tag string, what int) (ast.Expr, types.Type) {
 	case 0: // new(T)
 		x = &ast.CallExpr{Fun: e.ident("new", types.Universe.Lookup("new")), Args: []ast.Expr{tyExpr}}
 	case 1: // new(pkg.T)
-		if what != 0 && what != 2 && what != 3 && what != 6 && what != 8 && what != 9 && what != 10 && what != 12 {
+		if what != 0 && what != 2 && what != 3 && what != 6 && what != 8 && what != 9 && what != 10 && what != 12 && what != 13 {
 			vPrune()
 		}
 		other := types.NewPkgName(token.NoPos, e.pkg, "user2", e.pkg)
 		n := elem.(*types.Named)
 		x = &ast.CallExpr{Fun: e.ident("new", types.Universe.Lookup("new")), Args: []ast.Expr{&ast.SelectorExpr{X: e.ident("user2", other), Sel: e.typeIdent(n)}}}
 	case 2: // &T{} (composite literals exist for struct types only here)
-		if what != 0 && what != 4 && what != 5 && what != 6 && what != 10 {
+		if what != 0 && what != 4 && what != 5 && what != 6 && what != 10 && what != 13 {
 			vPrune()
 		}
 		x = &ast.UnaryExpr{Op: token.AND, X: &ast.CompositeLit{Type: tyExpr}}
@@ -192,7 +200,7 @@ func checkErrs(errs []error) {
 
 func H_recog_struct() {
 	e := newRecogEnv()
-	what := []int{0, 1, 2, 3, 4, 5, 10}[vConc(vInt("what", 0, 6))]
+	what := []int{0, 1, 2, 3, 4, 5, 10, 13}[vConc(vInt("what", 0, 7))]
 	arg0, _ := e.ptrExpr("a0", what)
 	args := []ast.Expr{arg0}
 	nf := vConc(vInt("nfields", 0, 3))
@@ -224,8 +232,8 @@ func H_recog_struct() {
 		vA("C12", len(p.Args) == 0, "no names: no field is set")
 	}
 	if p != nil && p.Pkg != nil {
-		vA("C12", what == 0 || what == 5 || what == 10, "only a pointer to a named struct type is accepted")
-		vA("C12", p.Name == "S" || p.Name == "G" || p.Name == "S1", "the provider is named after the struct type")
+		vA("C12", what == 0 || what == 5 || what == 10 || what == 13, "only a pointer to a named struct type is accepted")
+		vA("C12", p.Name == "S" || p.Name == "G" || p.Name == "S1" || p.Name == "S3", "the provider is named after the struct type")
 		vA("C12", p.IsStruct && len(p.Out) == 2, "struct provider provides S and *S")
 	}
 }
